@@ -63,8 +63,13 @@ def _run_impl(case, d):
     dpool = [0, 1, 2, 5, 30] + [g + k for g in gaps[:6] for k in (-1, 0, 1) if g + k >= 0]
     d_ = rng.choice(dpool)
     common = sorted(set.intersection(*[set(v) for v in streams_all.values()]))
-    if common and rng.random() < 0.4:
+    union = sorted(set.union(*[set(v) for v in streams_all.values()]))
+    u = rng.random()
+    if common and u < 0.3:
         ssel = sorted(rng.sample(common, rng.randint(1, len(common))))
+    elif u < 0.5:
+        # a subset of the streams of ANY rank: a requested stream may be missing on some of the ranks (also on the first one listed)
+        ssel = sorted(rng.sample(union, rng.randint(1, len(union))))
     else:
         ssel = None
     try:
@@ -116,6 +121,10 @@ def compare(case, impl, model):
             disc.append(f"rank {rank} stream {s}: category {c} listed twice")
         got[(rank, s, CAT[c])] = (t, ratio)
     for (r, rows), m in zip(sorted(impl["frames"].items()), model):
+        want_streams = set(_streams(impl, r))
+        extra = sorted({s for (rk, s, _c) in got if rk == r and s not in want_streams})
+        if extra:
+            disc.append(f"rank {r}: rows for stream(s) {extra} that were not requested (requested {impl['streams']})")
         for s, sums in zip(_streams(impl, r), m):
             if _tie_big(rows, s):
                 continue
@@ -132,8 +141,11 @@ def compare(case, impl, model):
                     disc.append(f"rank {r} stream {s} threshold {impl['d']}: idle_time[{list(CAT)[c]}] impl={t} model={sums[c]} (model sums {list(sums)})")
                 elif ratio is not None and tot != 0 and not (abs(ratio - sums[c] / tot) <= 0.005 + 1e-9):
                     disc.append(f"rank {r} stream {s}: ratio[{list(CAT)[c]}] impl={ratio} exact={sums[c] / tot}")
-            if (r, s, 2) not in got:
+            present = s in impl["streams_all"].get(r, impl["streams_all"].get(str(r), []))
+            if present and (r, s, 2) not in got:
                 disc.append(f"rank {r} stream {s}: no 'other' row (the first kernel of a stream always falls there)")
+            if not present and any((r, s, c) in got for c in range(3)):
+                disc.append(f"rank {r} stream {s}: rows reported for a requested stream the rank does not have")
     extra = [k for k in got if k[1] not in _streams(impl, k[0])]
     if extra:
         disc.append(f"rows for streams that were not requested: {extra[:3]}")
